@@ -47,7 +47,8 @@ def generate(rng, tier, index):
     if producer == "option":
         location = "user"
     elif producer == "option-moved":
-        location = rng.choice(["adjacent", "both"])
+        # "mixed": per image either the user cache dir or the adjacent location, not both
+        location = rng.choice(["adjacent", "both", "mixed", "mixed"])
     elif producer == "cli":
         location = rng.choice(["adjacent", "adjacent", "both"])
     elif producer == "cli-relocated":
@@ -69,7 +70,7 @@ def generate(rng, tier, index):
         sels.append([k, select.gen_selection(rng, im["lines"], im["pixels"])])
     return {"world": wp, "producer": producer, "location": location, "w": w_rpc, "r": r_rpc,
             "selections": sels, "scribble": rng.random() < 0.5,
-            "touch_images": rng.random() < 0.3,
+            "touch_images": rng.random() < 0.3, "mixed_flip": rng.random() < 0.3,
             # a cached open BEFORE any cache exists (same process unless a restart follows): what
             # it learns about missing caches must not outlive the production of one
             "early_cached_open": rng.random() < 0.4,
@@ -131,7 +132,16 @@ def execute(plan):
                 if not made:      # how many files a cache consists of is the library's business
                     violations.append(Violation(ID, "cache-not-created", site, {
                         "index_files": sorted(k[1] for k in made), "images": prod.images}))
-                if producer == "option-moved":
+                if producer == "option-moved" and location == "mixed":
+                    for k_m, ((d, fn), data) in enumerate(sorted(made.items())):
+                        img_m = fn[:-len(".index")]
+                        # images in summary order: the first keeps its user-cache index, the
+                        # others alternate
+                        pos = prod.images.index(img_m) if img_m in prod.images else k_m
+                        if pos % 2 == 1 or (plan.get("mixed_flip") and pos % 2 == 0):
+                            w.plant_adjacent(img_m, data)
+                            w.clear_user_cache(img_m)
+                elif producer == "option-moved":
                     for (d, fn), data in made.items():
                         w.plant_adjacent(fn[:-len(".index")], data)
                     if location == "adjacent":
